@@ -174,12 +174,21 @@ def run(ctx):
                 dict(points_drawn=[len(l_[0]) for l_ in l1 + l2], points_expected=int(keep.sum())))
     # ---------------- the same figure WITHOUT filtering, on records whose Days column is not 0, 1, 2, ... (starting at day 1,
     # every other day, monthly): the time axis is Days / tau and the simulation runs on it
-    for k in range(3 if ctx.quick else 9):
+    for k in range(4 if ctx.quick else 12):
         nd = int(rng.integers(8, 16))
         days = [np.arange(1, nd + 1), np.arange(0, 2 * nd, 2), np.cumsum(rng.choice([28, 30, 31], nd))][k % 3].astype(float)
         gas = rng.uniform(1, 50, nd)
         pres = np.sort(rng.uniform(800, 3000, nd))[::-1].copy()
         prod = pd.DataFrame({"Days": days, "Gas": gas, "Pressure": pres})
+        # the rows decide, not their labels: reversed, offset and string labels (fixed 2026-10: the Days column used to reach the
+        # simulator as a labelled Series and was indexed by label)
+        labels_u = ["0..n-1", "reversed", "offset by 10", "strings"][k % 4]
+        if labels_u == "reversed":
+            prod.index = np.arange(nd)[::-1]
+        elif labels_u == "offset by 10":
+            prod.index = np.arange(10, 10 + nd)
+        elif labels_u == "strings":
+            prod.index = [f"day-{i}" for i in range(nd)]
         par = Parameters()
         tau, M, p0 = float(rng.uniform(50, 400)), float(rng.uniform(500, 5000)), float(rng.uniform(4000, 9000))
         par.add("tau", value=tau)
@@ -187,7 +196,11 @@ def run(ctx):
         par.add("p_initial", value=p0)
         with warnings.catch_warnings():
             warnings.simplefilter("ignore")
-            fig, (ax1, ax2) = plot_production_comparison(prod, pvt, par, filter_zero_prod_days=False)
+            try:
+                fig, (ax1, ax2) = plot_production_comparison(prod, pvt, par, filter_zero_prod_days=False)
+            except Exception as e:  # noqa: BLE001
+                bad("production-comparison figure (no filtering) fails on an admissible table", dict(days=[float(x) for x in days[:5]], row_labels=labels_u, filter_zero_prod_days=False), repr(e)[:160])
+                continue
             l1, l2 = line_data(ax1), line_data(ax2)
             plt.close(fig)
         tt = days / tau
@@ -198,7 +211,7 @@ def run(ctx):
               and cl(l1[1][0], tt) and cl(l1[1][1], np.cumsum(gas) / M) and cl(l2[0][1], pres) and cl(l2[0][0], tt))
         if not ok:
             bad("production-comparison figure (no filtering) does not carry simulated recovery, cumulative production over M and frac-face pressure "
-                "against Days over tau", dict(days=[float(x) for x in days[:5]], tau=tau, M=M, p_initial=p0, filter_zero_prod_days=False),
+                "against Days over tau", dict(days=[float(x) for x in days[:5]], tau=tau, M=M, p_initial=p0, filter_zero_prod_days=False, row_labels=labels_u),
                 dict(x_drawn=[float(x) for x in (l1[0][0][:4] if l1 else [])], x_expected=[float(x) for x in tt[:4]]))
     # ---------------- the registered scale's transforms on the implementation
     import matplotlib.scale as mscale
@@ -206,6 +219,22 @@ def run(ctx):
     tr = mscale.scale_factory("squareroot", ax.xaxis).get_transform()
     inv = tr.inverted()
     plt.close(fig)
+    # the inverse as matplotlib itself uses it: through the axes' composite data transform (pixel -> data is what the cursor
+    # read-out and picking call); data -> pixels -> data must be the identity on a squareroot axis
+    for k in range(3 if ctx.quick else 30):
+        figp, axp = plt.subplots()
+        xmax = float(np.exp(rng.uniform(-3, 8)))
+        axp.set_xscale("squareroot")
+        axp.set_xlim(0, xmax)
+        axp.set_ylim(0, 3)
+        pts = np.column_stack([rng.uniform(0, xmax, 12), rng.uniform(0, 3, 12)])
+        back = np.asarray(axp.transData.inverted().transform(axp.transData.transform(pts)), float)
+        plt.close(figp)
+        ev += 1
+        if not np.allclose(back, pts, rtol=1e-9, atol=1e-9 * xmax):
+            j_ = int(np.argmax(np.abs(back[:, 0] - pts[:, 0])))
+            bad("on a squareroot axis data -> pixels -> data is not the identity: the transform's inverse, as matplotlib's transform pipeline calls it, is not its inverse",
+                dict(x_limits=[0.0, xmax], point=[float(x) for x in pts[j_]]), dict(came_back_as=[float(x) for x in back[j_]], sqrt_of_x=float(np.sqrt(pts[j_, 0]))))
     for k in range(20 if ctx.quick else 400):
         a = np.concatenate([[0.0], np.exp(rng.uniform(-30, 30, 30))])
         f = np.asarray(tr.transform_non_affine(a), float)
